@@ -1498,3 +1498,21 @@ Proof.
   destruct (dp_single_entry _ _ _ _ _ _ _ _ _ Hwf Ho Hn E) as (S0 & e & Es).
   unfold dp_result. rewrite E, Es. eauto.
 Qed.
+
+(* the executable fullness check is sound *)
+Lemma full_treeb_sound n t : full_treeb n t = true -> full_tree n t.
+Proof.
+  unfold full_treeb. intros H. apply andb_true_iff in H. destruct H as [Hl Hall].
+  apply Nat.eqb_eq in Hl. rewrite forallb_forall in Hall.
+  assert (Hincl : incl (seq 0 n) (leaves t)).
+  { intros i Hi. specialize (Hall i Hi). unfold memb in Hall. apply existsb_exists in Hall.
+    destruct Hall as (x & Hx & E). apply Nat.eqb_eq in E. subst. exact Hx. }
+  assert (Hnd : NoDup (leaves t)).
+  { apply (@NoDup_incl_NoDup nat (seq 0 n)); [apply seq_NoDup | rewrite seq_length; lia | exact Hincl]. }
+  split; [exact Hnd|]. intros i. split.
+  - intros Hi.
+    assert (Hrev : incl (leaves t) (seq 0 n)).
+    { apply NoDup_length_incl; [apply seq_NoDup | rewrite seq_length; lia | exact Hincl]. }
+    apply Hrev, in_seq in Hi. lia.
+  - intros Hi. apply Hincl, in_seq. lia.
+Qed.
